@@ -14,7 +14,8 @@ RULE = ('sender against a scripted cooperative receiver (ContinueToSend at the F
         '4094..4097 boundary and lazily generated payloads of 2^16, 2^24, 2^32-1 bytes (first frames only) and sizes 2^32, 2^32+1, 2^40 '
         '(must be refused). Oracle: (id, ext, fd, brs, dlc, data) of every emitted frame == the extracted Coq reference segmentation '
         'Spec/Segment.v `seg`; the run is also replayed on the extracted model. non-trivial = distinct (class, length) pairs'
-        ' (duplex) the layer receives whole messages, abandoned ones, garbage, stop_receiving() and reception timeouts while it transmits: its data frames are still the reference segmentation. (readdress) set_address() to an address with another prefix size on a live layer, then sends: reference segmentation under the new address, model instance built with the new address.')
+        ' (duplex) the layer receives whole messages, abandoned ones, garbage, stop_receiving() and reception timeouts while it transmits: its data frames are still the reference segmentation. (readdress) set_address() to an address with another prefix size on a live layer, then sends: reference segmentation under the new address, model instance built with the new address.'
+        ' (canstack) isotp.CanStack on a fake can.BusABC: every can.Message handed to bus.send() is the reference frame (identifier, flags, data) and consistent for python-can (dlc = byte count).')
 ASSUME = ['the scripted receiver answers every First Frame and block end at once (no deadline is missed)']
 
 
